@@ -145,9 +145,24 @@ def make_input(I: Interp, name, kind):
     if kind.startswith("node:"):
         cls = loader.resolve(kind[5:]) if ":" in kind[5:] else _node_cls(kind[5:])
         return I.sym_node(cls, z3.Const(name, V))
+    if kind == "symdict":
+        return SymDict(z3.Const(name, V), None, name)
     if kind.startswith("obj:"):
-        cls = loader.resolve(kind[4:])
-        return SymObj(cls, {}, z3.Const(name, V))
+        spec_ = kind[4:]
+        attrs = {}
+        if "{" in spec_:
+            spec_, _, rest = spec_.partition("{")
+            for item in rest.rstrip("}").split(","):
+                if item.strip():
+                    an, _, ak = item.partition("=")
+                    attrs[an.strip()] = ak.strip()
+        cls = loader.resolve(spec_)
+        o = SymObj(cls, {}, z3.Const(name, V))
+        for an, ak in attrs.items():
+            o.attrs[an] = make_input(I, f"{name}.{an}", ak)
+        return o
+    if kind == "set":
+        return SymSet(z3.Const(name, smt.SetV))
     if kind.startswith("const:"):
         return Conc(eval(kind[6:]))  # noqa: S307  (contract text is ours)
     raise Unsupported(f"input kind {kind}")
@@ -271,14 +286,28 @@ def check_bool_post(I, outs, oname, post_thunk_for, rlimit):
 
 
 # ----------------------------------------------------------------------------- mapper methods
-def make_self(I: Interp, mc: MapperContract, mapper_cls):
+def make_self(I: Interp, mc: MapperContract, mapper_cls, variant=None):
     selfv = SymObj(mapper_cls, {}, z3.Const("self", V))
-    for an, kind in mc.self_attrs.items():
-        selfv.attrs[an] = make_input(I, f"self.{an}", kind)
+    attrs = dict(mc.self_attrs)
+    attrs.update(variant or {})
+    for an, kind in attrs.items():
+        if isinstance(kind, str):
+            selfv.attrs[an] = make_input(I, f"self.{an}", kind)
+        else:
+            selfv.attrs[an] = Conc(kind[0])       # ("value",) concrete attribute
+    for an, inv_fn in getattr(mc, "dict_invs", {}).items():
+        d = selfv.attrs.get(an)
+        if isinstance(d, SymDict):
+            def inv(I, key, val, inv_fn=inv_fn, selfv=selfv):
+                I.assume_path_bool(lambda: I.call_function(Conc(inv_fn), [selfv, key, val], {}))
+            d.inv = inv
+            I.track(d)
+    I.track(selfv)
     return selfv
 
 
-def verify_mapper_method(mc: MapperContract, node_cls, specs, rlimit=20_000_000, hooks=None):
+def verify_mapper_method(mc: MapperContract, node_cls, specs, rlimit=20_000_000, hooks=None, variant=None,
+                         variant_name=""):
     """All obligations of `mapper.map_<K>` for node class K.  Returns dict(report)."""
     t0 = time.time()
     mapper_cls = loader.resolve(mc.mapper)
@@ -315,7 +344,7 @@ def verify_mapper_method(mc: MapperContract, node_cls, specs, rlimit=20_000_000,
         return rep
     rep["function"] = info.describe()
     rep["method"] = mname
-    oname = f"{mapper_cls.__name__}.{mname}[{node_name}]"
+    oname = f"{mapper_cls.__name__}.{mname}[{node_name}]{variant_name}"
     ctx = smt.Ctx()
     I = Interp(ctx, class_table=list(node_class_table()))
     I.new_objects = []
@@ -326,7 +355,8 @@ def verify_mapper_method(mc: MapperContract, node_cls, specs, rlimit=20_000_000,
     if hooks:
         hooks(I)
     try:
-        selfv = make_self(I, mc, mapper_cls)
+        I.empty_dict_symbolic = bool(getattr(mc, "dict_invs", None))
+        selfv = make_self(I, mc, mapper_cls, variant)
         if foreign:
             et = z3.Const("expr", V)
             if node_cls == "<constant>":
@@ -386,6 +416,8 @@ def verify_mapper_method(mc: MapperContract, node_cls, specs, rlimit=20_000_000,
         for ename, efn in mc.ensures:
             rep["obligations"] += [o.as_dict() for o in
                                    check_ensures(I, code_outs, efn, [selfv, expr, args_val, kw_val], f"{oname}/{ename}", rlimit)]
+        if getattr(mc, "dict_invs", None):
+            rep["obligations"] += [o.as_dict() for o in check_dict_writes(I, mc, selfv, code_outs, oname, rlimit)]
         # vacuity: the precondition/axiom set must be satisfiable
         r, _ = smt.check(ctx, [], rlimit=rlimit)
         rep["axioms_sat"] = r
@@ -422,6 +454,55 @@ def assume_bool(I, thunk):
     I.ctx.assume(z3.Or(*disj) if disj else z3.BoolVal(False))
 
 
+def check_dict_writes(I, mc, selfv, code_outs, oname, rlimit):
+    """Object invariant of caches: every entry written satisfies the dict invariant; and frame:
+    only the declared cache attributes of self are assigned."""
+    obs = []
+    allowed = set(mc.dict_invs) | set(getattr(mc, "may_assign", ()))
+    for i, co in enumerate(code_outs):
+        t0 = time.time()
+        status, detail, model = "discharged", "", ""
+        post_attrs = None
+        for obj, snap in co.extra.get("state", []):
+            if obj is selfv:
+                post_attrs = snap
+        writes = [g for g in co.extra.get("ghost", []) if g[0] == "dict-write"]
+        saved = len(I.pcs)
+        I.pcs.extend(co.pcs)
+        try:
+            for _, d, key, val in writes:
+                an = next((a for a, v in (post_attrs or {}).items() if v is d), None)
+                if an is None or an not in mc.dict_invs:
+                    continue
+                pouts = I.explore(lambda: I.call_function(Conc(mc.dict_invs[an]), [selfv, key, val], {}))
+                for po in pouts:
+                    if po.kind == "exc":
+                        r, mdl = smt.check(I.ctx, I.pcs + po.pcs, rlimit=rlimit)
+                        if r != "unsat":
+                            status, detail = "refuted" if r == "sat" else "undecided", f"invariant undefined for written entry ({po.value!r})"
+                            model = _model_text(mdl) if r == "sat" else ""
+                        continue
+                    t = I.truth(po.value)
+                    if t is True:
+                        continue
+                    neg = z3.BoolVal(True) if t is False else z3.Not(t)
+                    r, mdl = smt.check(I.ctx, I.pcs + po.pcs + [neg], rlimit=rlimit)
+                    if r == "sat":
+                        status, detail, model = "refuted", f"path {i}: entry written to {an} violates the cache invariant", _model_text(mdl)
+                    elif r == "unknown" and status == "discharged":
+                        status, detail = "undecided", str(mdl)
+            bad = [w for w in co.extra.get("writes", []) if w[0] is selfv and w[1] not in allowed]
+            if bad and status == "discharged":
+                r, mdl = smt.check(I.ctx, I.pcs, rlimit=rlimit)
+                if r != "unsat":
+                    status, detail = "refuted", f"path {i}: assigns self.{bad[0][1]} (frame: only {sorted(allowed)})"
+        finally:
+            del I.pcs[saved:]
+        obs.append(Obligation(f"{oname}/cache-inv+frame/path{i}", status, "z3", time.time() - t0, detail, model,
+                              goal=f"every entry written to {sorted(mc.dict_invs)} satisfies the invariant; assigns only {sorted(allowed)}"))
+    return obs
+
+
 def _owner_of(cls, name):
     for k in cls.__mro__:
         if name in k.__dict__:
@@ -429,7 +510,7 @@ def _owner_of(cls, name):
     return None
 
 
-def check_ensures(I, code_outs, efn, base_args, oname, rlimit, on_exc=False):
+def check_ensures(I, code_outs, efn, base_args, oname, rlimit, on_exc=False, after=()):
     """Boolean postcondition on every returning path of the code."""
     obs = []
     for i, co in enumerate(code_outs):
@@ -439,10 +520,14 @@ def check_ensures(I, code_outs, efn, base_args, oname, rlimit, on_exc=False):
         saved = len(I.pcs)
         I.pcs.extend(co.pcs)
         I.current_ghost = co.extra.get("ghost", [])
+        saved_tracked = I.tracked
+        if co.extra.get("state"):
+            I.tracked = list(co.extra["state"])     # the path's post-state is the base state while the postcondition runs
+        I.restore_tracked()
         status, detail, model = "discharged", "", ""
         try:
             def run_post():
-                return I.call_function(Conc(efn), [*base_args, co.value], {})
+                return I.call_function(Conc(efn), [*base_args, co.value, *after], {})
             pouts = I.explore(run_post)
             for po in pouts:
                 if po.kind == "exc":
@@ -462,6 +547,7 @@ def check_ensures(I, code_outs, efn, base_args, oname, rlimit, on_exc=False):
                     status, detail = "undecided", f"solver unknown: {mdl}"
         finally:
             del I.pcs[saved:]
+            I.tracked = saved_tracked
         obs.append(Obligation(f"{oname}/path{i}", status, "z3", time.time() - t0, detail, model,
                               goal=f"ensures {getattr(efn, '__name__', '?')} | pc: {[str(p)[:80] for p in co.pcs][:6]}"))
     return obs
@@ -499,6 +585,9 @@ def verify_function(fc: FunctionContract, specs, rlimit=20_000_000, hooks=None):
             else:
                 plain.append((n, k))
         inputs = [make_input(I, n, k) for n, k in plain]
+        for v in inputs:
+            if isinstance(v, (SymObj, SymDict, PyList, PyDict, SymSet)):
+                I.track(v)
         spec_inputs = list(inputs)
         if star is not None:
             spec_inputs.append(SymSeq(star, "tuple"))
@@ -528,6 +617,11 @@ def verify_function(fc: FunctionContract, specs, rlimit=20_000_000, hooks=None):
                 rep["status"] = "vacuous"
                 return rep
         I.pcs.extend(pre_pcs)
+        if fc.old is not None:
+            oouts = I.explore(lambda: I.call_function(Conc(fc.old), spec_inputs, {}))
+            if len(oouts) != 1 or oouts[0].kind != "ret":
+                raise Unsupported("old-state expression must be a single-path value")
+            old_val = oouts[0].value
         code_outs = I.explore(lambda: I.call_function(Conc(fobj), inputs, {}, star, dstar))
         rep["paths"] = len(code_outs)
         if fc.refines is not None:
@@ -535,7 +629,8 @@ def verify_function(fc: FunctionContract, specs, rlimit=20_000_000, hooks=None):
             rep["obligations"] += [o.as_dict() for o in compare_outcomes(I, code_outs, spec_outs, oname + "/refines", rlimit,
                                                                        effects=getattr(fc, "effects", False))]
         for ename, efn in fc.ensures:
-            rep["obligations"] += [o.as_dict() for o in check_ensures(I, code_outs, efn, spec_inputs, f"{oname}/{ename}", rlimit)]
+            rep["obligations"] += [o.as_dict() for o in check_ensures(I, code_outs, efn, spec_inputs, f"{oname}/{ename}", rlimit,
+                                                                     after=([old_val] if fc.old is not None else []))]
         for rname, cond, exc_cls in fc.raises:
             rep["obligations"] += [o.as_dict() for o in check_raises(I, code_outs, cond, exc_cls, spec_inputs, f"{oname}/{rname}", rlimit)]
         extra = getattr(I, "extra_obligations", [])
